@@ -23,6 +23,9 @@ var ICSets = []ICSet{
 	{"none", ref.Interceptors{}},
 	{"std", ref.Interceptors{"digit": ref.IsDigits, "any": ref.IsAny, "word": ref.IsWord}},
 	{"custom", ref.Interceptors{"digit": ref.IsDigits, "even": EvenLen, "up": UpFirst, `\d+`: ref.IsDigits}},
+	// the same three names as "std", but the engines register mux's own option constructors
+	// (WithDigitInterceptor / WithWordInterceptor / WithAnyInterceptor): their documented meaning is the reference side
+	{"builtin", ref.Interceptors{"digit": ref.IsDigits, "any": ref.IsAny, "word": ref.IsWord}},
 }
 
 // TokSpec is a parameter token of the pool. Class (regexp family only) says
@@ -259,7 +262,13 @@ func (pl *Pool) Table(r *ref.R, n int) []string {
 // constraint, sometimes tricky on purpose.
 func Value(r *ref.R, t *ref.Tok, nextLit string) string {
 	if r.Chance(1, 4) {
-		switch r.Intn(7) {
+		switch r.Intn(10) {
+		case 7:
+			return ref.Pick(r, []string{"丰", "ı", "乡", "Ł"}) // runes whose low byte is an ASCII digit or letter
+		case 8:
+			return "7" + ref.Pick(r, []string{"丰", "ı", "乡", "Ł"})
+		case 9:
+			return ref.Pick(r, []string{"丰", "乡"}) + "a1"
 		case 0:
 			return ""
 		case 1:
